@@ -209,6 +209,9 @@ def analyse(fn, entry, post=None):
                 st.d.forget(v)
                 lv = fn.locals.get(e['decl'])
                 init = _decl_init(fn, e['decl'])
+                if zone.PTR_STEP is not None and lv is not None and lv['type'].endswith('*'):
+                    fake = {'k': 'DeclStmt', 'id': -1, 'decls': [dict({'var': e['decl']}, **({'init': init} if init is not None else {}))]}
+                    zone.PTR_STEP(fn, st.d, fake)
                 if lv is not None and init is not None and lv['type'] in zone.INT_TYPES:
                     lin = zone.linear(fn, fn.nodes[init])
                     if lin is not None and lin[0] != v:
